@@ -127,6 +127,10 @@ func (vc *VC) script(alt Mode) (string, []int) {
 		case itOblig:
 			idx = append(idx, i)
 			fmt.Fprintf(&b, "; obligation %s\n(push 1)\n", it.Name)
+			if it.Expect == "notunsat" {
+				fmt.Fprintf(&b, "(set-option :timeout 1500)\n(assert %s)\n(check-sat)\n(pop 1)\n(set-option :timeout 4294967295)\n", it.text(alt))
+				continue
+			}
 			if it.Expect != "sat" {
 				fmt.Fprintf(&b, "(assert (not %s))\n", it.text(alt))
 			} else {
@@ -227,6 +231,16 @@ func solveVC(vc *VC, dir string, quickMs, fullMs int, par chan struct{}) []Resul
 		}
 		results[k].Solver = "z3-new"
 		results[k].Secs = secs / float64(len(idx))
+		if results[k].Expect == "notunsat" {
+			if w == "unsat" {
+				results[k].Status = "refuted"
+				results[k].Detail = "the assumptions on this path are contradictory (or the return is unreachable): proofs below it are vacuous"
+			} else {
+				results[k].Status = "discharged"
+			}
+			k++
+			continue
+		}
 		if w == results[k].Expect {
 			results[k].Status = "discharged"
 		} else if w == "unknown" {
@@ -239,7 +253,7 @@ func solveVC(vc *VC, dir string, quickMs, fullMs int, par chan struct{}) []Resul
 	// pass 2: everything not discharged, individually, all solvers raced
 	var wg sync.WaitGroup
 	for k := range results {
-		if results[k].Status == "discharged" {
+		if results[k].Status == "discharged" || results[k].Expect == "notunsat" {
 			continue
 		}
 		wg.Add(1)
